@@ -4,6 +4,7 @@ package crypto
 
 import (
 	"crypto/sha512"
+	"encoding/binary"
 	"fmt"
 	"sort"
 	"sync/atomic"
@@ -54,6 +55,59 @@ func c14RefVerify(A []byte, sig *Signature, msg []byte) bool {
 	return lhs.Equal(rhs) == 1
 }
 
+// ---- independent reference of the weighted aggregate key --------------------
+// crypto/aggregation.go (unchanged tree): transcript = u32be(len(signers)) ||
+// for each signer in order: u32be(index) || key; coefficient a_i =
+// SHA-512("mixin-aggregate-coefficient-v1" || transcript || u32be(index_i) ||
+// key_i) mod l; aggregate key = sum a_i * X_i. l must be strictly ascending
+// and inside the vector.
+func c14RefCoefficients(pub []*Key, l []int) []*edwards25519.Scalar {
+	tr := binary.BigEndian.AppendUint32(nil, uint32(len(l)))
+	for _, i := range l {
+		tr = binary.BigEndian.AppendUint32(tr, uint32(i))
+		tr = append(tr, pub[i][:]...)
+	}
+	out := make([]*edwards25519.Scalar, 0, len(l))
+	for _, i := range l {
+		h := sha512.New()
+		h.Write([]byte("mixin-aggregate-coefficient-v1"))
+		h.Write(tr)
+		h.Write(binary.BigEndian.AppendUint32(nil, uint32(i)))
+		h.Write(pub[i][:])
+		a, err := edwards25519.NewScalar().SetUniformBytes(h.Sum(nil))
+		if err != nil {
+			panic(err)
+		}
+		out = append(out, a)
+	}
+	return out
+}
+
+// c14RefAggKey returns sum a_i*X_i (nil when a key does not decode).
+func c14RefAggKey(pub []*Key, l []int) ([]byte, []*edwards25519.Scalar) {
+	coeffs := c14RefCoefficients(pub, l)
+	acc := edwards25519.NewIdentityPoint()
+	for k, i := range l {
+		p, err := edwards25519.NewIdentityPoint().SetBytes(pub[i][:])
+		if err != nil {
+			return nil, coeffs
+		}
+		acc.Add(acc, edwards25519.NewIdentityPoint().ScalarMult(coeffs[k], p))
+	}
+	return acc.Bytes(), coeffs
+}
+
+func c14WellFormed(l []int, n int) bool {
+	prev := -1
+	for _, i := range l {
+		if i <= prev || i >= n {
+			return false
+		}
+		prev = i
+	}
+	return len(l) > 0
+}
+
 // ---- fixtures ---------------------------------------------------------------
 
 func c14Seed(label string) []byte {
@@ -73,13 +127,14 @@ type c14Vec struct {
 
 type c14Net struct {
 	n    int
+	name string
 	priv []*Key
 	base *c14Vec
 	vecs []*c14Vec // base first, then swaps and replacements
 }
 
 func c14NewNet(n int, swaps [][2]int, replace []int) *c14Net {
-	net := &c14Net{n: n}
+	net := &c14Net{n: n, name: fmt.Sprintf("n%d", n)}
 	base := &c14Vec{name: "base"}
 	for i := 0; i < n; i++ {
 		k := c14Key(fmt.Sprintf("c14/key/%d/%d", n, i))
@@ -212,7 +267,26 @@ func (r *c14Run) verify(sig *Signature, pub []*Key, l []int, mi int) (err error,
 	if p := verifmc.Catch(func() { err = AggregateVerify(sig, pub, l, r.msgs[mi]) }); p != nil {
 		return fmt.Errorf("panic: %v", p), true
 	}
+	if err == nil && sig != nil && c14WellFormed(l, len(pub)) {
+		// direction: accepted => valid Schnorr signature under the reference key sum a_i*X_i
+		A, _ := c14RefAggKey(pub, l)
+		if A != nil && c14RefVerify(A, sig, r.msgs[mi][:]) {
+			r.refOK.Add(1)
+		} else {
+			r.c.Outcome("accepted-but-invalid-under-reference-key")
+			r.c.Violation("accepted:invalid-under-reference-aggregate-key", fmt.Sprintf("AggregateVerify accepts a signature for signers %v over %d keys that is not a Schnorr signature under the weighted key sum a_i*X_i recomputed from the transcript definition", l, len(pub)),
+				map[string]any{"n": len(pub), "signers": l, "message": mi, "signature": sig.String(), "keys": c14KeyStrings(pub, l)})
+		}
+	}
 	return err, false
+}
+
+func c14KeyStrings(pub []*Key, l []int) []string {
+	var out []string
+	for _, i := range l {
+		out = append(out, pub[i].String())
+	}
+	return out
 }
 
 // classification of a wrongly accepted target
@@ -250,7 +324,7 @@ func c14Class(net *c14Net, sg *c14Sig, v *c14Vec, l c14List, mi int) string {
 func (r *c14Run) matrix(sg *c14Sig, vecs []*c14Vec, sorted, malformed []c14List, sameSizeOnly bool) {
 	c := r.c
 	net := sg.net
-	tag := fmt.Sprintf("%d|%v|%d|", net.n, sg.s, sg.mi)
+	tag := fmt.Sprintf("%s|%v|%d|", net.name, sg.s, sg.mi)
 	check := func(v *c14Vec, l c14List, mi int) {
 		c.Eval(1)
 		c.Distinct(tag + v.name + "|" + fmt.Sprint(l.l) + "|" + fmt.Sprint(mi))
@@ -261,7 +335,7 @@ func (r *c14Run) matrix(sg *c14Sig, vecs []*c14Vec, sorted, malformed []c14List,
 			}
 		}
 		err, panicked := r.verify(sg.sig, v.pub, l.l, mi)
-		rep := map[string]any{"n": net.n, "signed_set": sg.s, "signed_message": sg.mi, "verify_vector": v.name, "verify_signers": l.l, "verify_message": mi,
+		rep := map[string]any{"n": net.n, "vector_family": net.name, "signed_set": sg.s, "signed_message": sg.mi, "verify_vector": v.name, "verify_signers": l.l, "verify_message": mi,
 			"keys": "NewKeyFromSeed(sha512('c14/key/<n>/<i>'))", "seed": "sha512('c14/seed/<n>/<set>/<msg>')"}
 		switch {
 		case panicked:
@@ -269,7 +343,7 @@ func (r *c14Run) matrix(sg *c14Sig, vecs []*c14Vec, sorted, malformed []c14List,
 			c.Violation("panic:AggregateVerify:"+l.kind, fmt.Sprintf("AggregateVerify panics for signers %v over %d keys: %v", l.l, net.n, err), rep)
 		case want && err != nil && v == net.base:
 			c.Outcome("honest:rejected")
-			c.Violation("honest:verify-rejected", fmt.Sprintf("n=%d: signature by %v does not verify for its own vector, set and message: %v", net.n, sg.s, err), rep)
+			c.Violation("honest:verify-rejected", fmt.Sprintf("%s: signature by %v does not verify for its own vector, set and message: %v", net.name, sg.s, err), rep)
 		case want && err != nil:
 			// only an unselected key differs; refusing is stricter than the construction promises
 			c.Outcome("unselected-key-changed:reject")
@@ -281,7 +355,7 @@ func (r *c14Run) matrix(sg *c14Sig, vecs []*c14Vec, sorted, malformed []c14List,
 		case err == nil:
 			cl := c14Class(net, sg, v, l, mi)
 			c.Outcome("accepted-wrongly:" + cl)
-			c.Violation("accepted:"+cl, fmt.Sprintf("n=%d: signature made for (base, %v, msg%d) verifies for (%s, %v, msg%d)", net.n, sg.s, sg.mi, v.name, l.l, mi), rep)
+			c.Violation("accepted:"+cl, fmt.Sprintf("%s: signature made for (base, %v, msg%d) verifies for (%s, %v, msg%d)", net.name, sg.s, sg.mi, v.name, l.l, mi), rep)
 		default:
 			if l.kind == "sorted" {
 				c.Outcome("reject:" + c14Class(net, sg, v, l, mi))
@@ -331,48 +405,119 @@ func (r *c14Run) selfSigned(net *c14Net, l c14List) {
 	}
 }
 
-// partial-key forgery: the holders of S (a proper subset of T) run the signing
-// equation for signer list T with their keys only.
+// partial-key forgery: the holders of S (a subset of T) run the signing
+// equation for signer list T with their keys only, once with the coefficients
+// and aggregate key the repository yields and once with the reference ones.
 func (r *c14Run) forge(net *c14Net, S, T []int, mi int) {
 	c := r.c
-	c.Eval(1)
-	c.Distinct(fmt.Sprintf("%d|forge|%v|%v|%d", net.n, S, T, mi))
 	msg := r.msgs[mi]
-	A, coeffs, _, err := aggregateWeightedPublicKey(net.base.pub, T)
+	codeA, codeCoeffs, _, err := aggregateWeightedPublicKey(net.base.pub, T)
 	if err != nil {
 		c.Require(false, "aggregateWeightedPublicKey(%v) failed: %v", T, err)
 		return
 	}
-	R := edwards25519.NewIdentityPoint()
-	var zs []*edwards25519.Scalar
+	refA, refCoeffs := c14RefAggKey(net.base.pub, T)
+	for _, src := range []string{"code", "reference"} {
+		c.Eval(1)
+		c.Distinct(fmt.Sprintf("%s|forge|%s|%v|%v|%d", net.name, src, S, T, mi))
+		A, coeffs := codeA[:], codeCoeffs
+		if src == "reference" {
+			A, coeffs = refA, refCoeffs
+		}
+		R := edwards25519.NewIdentityPoint()
+		var zs []*edwards25519.Scalar
+		for _, i := range S {
+			z, _ := edwards25519.NewScalar().SetUniformBytes(c14Seed(fmt.Sprintf("c14/forge-nonce/%s/%v/%v/%d/%d", net.name, S, T, mi, i)))
+			zs = append(zs, z)
+			R.Add(R, edwards25519.NewIdentityPoint().ScalarBaseMult(z))
+		}
+		x := c14RefChallenge(R.Bytes(), A, msg[:])
+		sum := edwards25519.NewScalar()
+		for k, i := range S {
+			pos := sort.SearchInts(T, i)
+			y, _ := edwards25519.NewScalar().SetCanonicalBytes(net.priv[i][:])
+			w := edwards25519.NewScalar().Multiply(coeffs[pos], y)
+			sum.Add(sum, edwards25519.NewScalar().MultiplyAdd(x, w, zs[k]))
+		}
+		var sig Signature
+		copy(sig[:32], R.Bytes())
+		copy(sig[32:], sum.Bytes())
+		verr, _ := r.verify(&sig, net.base.pub, T, mi)
+		full := len(S) == len(T)
+		rep := map[string]any{"vector": net.name, "keys_used": S, "claimed": T, "message": mi, "coefficients": src}
+		switch {
+		case full && verr != nil && src == "reference":
+			c.Outcome("forge:complete-keys-rejected")
+			c.Violation("honest:scheme-signature-rejected", fmt.Sprintf("%s: signature computed by all holders of %v with the coefficients of the transcript definition does not verify: %v", net.name, T, verr), rep)
+		case full && verr != nil:
+			c.Require(false, "forging construction is wrong: complete key set %v does not verify: %v", T, verr)
+		case full:
+			c.Outcome("forge:complete-keys-verify")
+		case verr == nil:
+			c.Outcome("forge:accepted")
+			c.Violation("accepted:subset-of-private-keys", fmt.Sprintf("%s: signature computed with the private keys of %v only (%s coefficients) verifies for signer set %v", net.name, S, src, T), rep)
+		default:
+			c.Outcome("forge:reject")
+		}
+	}
+}
+
+// every scalar a forger could plausibly weight its key with: 1, each
+// coefficient of the claimed set by the reference formula, each coefficient
+// the repository's code yields.
+func c14Weights(pub []*Key, T []int) ([]*edwards25519.Scalar, []string) {
+	one, _ := edwards25519.NewScalar().SetCanonicalBytes(append([]byte{1}, make([]byte, 31)...))
+	ws, names := []*edwards25519.Scalar{one}, []string{"1"}
+	seen := map[string]bool{string(one.Bytes()): true}
+	add := func(a *edwards25519.Scalar, name string) {
+		if !seen[string(a.Bytes())] {
+			seen[string(a.Bytes())] = true
+			ws = append(ws, edwards25519.NewScalar().Set(a))
+			names = append(names, name)
+		}
+	}
+	for k, a := range c14RefCoefficients(pub, T) {
+		add(a, fmt.Sprintf("reference-coefficient[%d]", k))
+	}
+	var cc []*edwards25519.Scalar
+	if verifmc.Catch(func() { _, cc, _, _ = aggregateWeightedPublicKey(pub, T) }) == nil {
+		for k, a := range cc {
+			add(a, fmt.Sprintf("code-coefficient[%d]", k))
+		}
+	}
+	return ws, names
+}
+
+// single-scalar forgery: the holders of S (proper subset of T) sign with the
+// plain Schnorr key w * sum_{i in S} y_i for every candidate weight w. This is
+// what succeeds when the listed keys outside S cancel each other and the
+// coefficients do not keep them apart.
+func (r *c14Run) scalarForge(net *c14Net, S, T []int, mi int) {
+	c := r.c
+	msg := r.msgs[mi]
+	ysum := edwards25519.NewScalar()
 	for _, i := range S {
-		z, _ := edwards25519.NewScalar().SetUniformBytes(c14Seed(fmt.Sprintf("c14/forge-nonce/%d/%v/%v/%d/%d", net.n, S, T, mi, i)))
-		zs = append(zs, z)
-		R.Add(R, edwards25519.NewIdentityPoint().ScalarBaseMult(z))
-	}
-	x := c14RefChallenge(R.Bytes(), A[:], msg[:])
-	sum := edwards25519.NewScalar()
-	for k, i := range S {
-		pos := sort.SearchInts(T, i)
 		y, _ := edwards25519.NewScalar().SetCanonicalBytes(net.priv[i][:])
-		w := edwards25519.NewScalar().Multiply(coeffs[pos], y)
-		sum.Add(sum, edwards25519.NewScalar().MultiplyAdd(x, w, zs[k]))
+		ysum.Add(ysum, y)
 	}
-	var sig Signature
-	copy(sig[:32], R.Bytes())
-	copy(sig[32:], sum.Bytes())
-	verr, _ := r.verify(&sig, net.base.pub, T, mi)
-	full := len(S) == len(T)
-	switch {
-	case full && verr != nil:
-		c.Require(false, "forging construction is wrong: complete key set %v does not verify: %v", T, verr)
-	case full:
-		c.Outcome("forge:complete-keys-verify")
-	case verr == nil:
-		c.Outcome("forge:accepted")
-		c.Violation("accepted:subset-of-private-keys", fmt.Sprintf("n=%d: signature computed with the private keys of %v only verifies for signer set %v", net.n, S, T), map[string]any{"n": net.n, "keys_used": S, "claimed": T, "message": mi})
-	default:
-		c.Outcome("forge:reject")
+	if ysum.Equal(edwards25519.NewScalar()) == 1 {
+		return
+	}
+	ws, names := c14Weights(net.base.pub, T)
+	for k, w := range ws {
+		c.Eval(1)
+		c.Distinct(fmt.Sprintf("%s|scalar-forge|%v|%v|%d|%s", net.name, S, T, mi, names[k]))
+		var fk Key
+		copy(fk[:], edwards25519.NewScalar().Multiply(w, ysum).Bytes())
+		sig := fk.Sign(msg)
+		verr, _ := r.verify(&sig, net.base.pub, T, mi)
+		if verr == nil {
+			c.Outcome("scalar-forge:accepted")
+			c.Violation("accepted:subset-of-private-keys", fmt.Sprintf("%s: plain signature with scalar %s * (sum of the private keys of %v) verifies for signer set %v", net.name, names[k], S, T),
+				map[string]any{"vector": net.name, "keys_used": S, "claimed": T, "message": mi, "weight": names[k]})
+		} else {
+			c.Outcome("scalar-forge:reject")
+		}
 	}
 }
 
@@ -390,11 +535,13 @@ var c14Order2 = func() *edwards25519.Point { // (0,-1), order 2
 }()
 
 // rogue key at position rpos of S: key = X - sum of the other selected keys
-// (optionally plus a point of order 2); the attacker signs alone with x.
+// (optionally plus a point of order 2); the attacker signs alone with w*x for
+// every candidate weight w.
 func (r *c14Run) rogue(net *c14Net, S []int, rpos int, mi int) {
 	c := r.c
 	msg := r.msgs[mi]
-	x := c14Key(fmt.Sprintf("c14/attacker/%d/%v/%d", net.n, S, rpos))
+	x := c14Key(fmt.Sprintf("c14/attacker/%s/%v/%d", net.name, S, rpos))
+	xs, _ := edwards25519.NewScalar().SetCanonicalBytes(x[:])
 	X := x.Public()
 	acc, err := edwards25519.NewIdentityPoint().SetBytes(X[:])
 	if err != nil {
@@ -407,15 +554,7 @@ func (r *c14Run) rogue(net *c14Net, S []int, rpos int, mi int) {
 		p, _ := edwards25519.NewIdentityPoint().SetBytes(net.base.pub[i][:])
 		acc.Subtract(acc, p)
 	}
-	sig := x.Sign(msg)
-	if !c14RefVerify(X[:], &sig, msg[:]) {
-		c.Require(false, "attacker signature is not a valid Schnorr signature")
-		return
-	}
-	r.refOK.Add(1)
 	for _, torsion := range []bool{false, true} {
-		c.Eval(1)
-		c.Distinct(fmt.Sprintf("%d|rogue|%v|%d|%d|%v", net.n, S, rpos, mi, torsion))
 		pt := edwards25519.NewIdentityPoint().Set(acc)
 		if torsion {
 			pt.Add(pt, c14Order2)
@@ -428,31 +567,74 @@ func (r *c14Run) rogue(net *c14Net, S []int, rpos int, mi int) {
 		}
 		pub := append([]*Key(nil), net.base.pub...)
 		pub[S[rpos]] = &rk
-		verr, _ := r.verify(&sig, pub, S, mi)
 		name := map[bool]string{false: "valid-point", true: "small-order-component"}[torsion]
-		if verr == nil {
-			c.Outcome("rogue:" + name + ":accepted")
-			c.Violation("accepted:rogue-key", fmt.Sprintf("n=%d: key cancellation forgery verifies for signers %v (rogue key at index %d, %s)", net.n, S, S[rpos], name), map[string]any{"n": net.n, "signers": S, "rogue_index": S[rpos], "message": mi, "torsion": torsion})
-		} else {
-			c.Outcome("rogue:" + name + ":reject")
+		ws, names := c14Weights(pub, S)
+		for k, w := range ws {
+			c.Eval(1)
+			c.Distinct(fmt.Sprintf("%s|rogue|%v|%d|%d|%v|%s", net.name, S, rpos, mi, torsion, names[k]))
+			var fk Key
+			copy(fk[:], edwards25519.NewScalar().Multiply(w, xs).Bytes())
+			sig := fk.Sign(msg)
+			fp := fk.Public()
+			if !c14RefVerify(fp[:], &sig, msg[:]) {
+				c.Require(false, "attacker signature is not a valid Schnorr signature")
+				continue
+			}
+			r.refOK.Add(1)
+			verr, _ := r.verify(&sig, pub, S, mi)
+			if verr == nil {
+				c.Outcome("rogue:" + name + ":accepted")
+				c.Violation("accepted:rogue-key", fmt.Sprintf("%s: key cancellation forgery verifies for signers %v (rogue key at index %d, %s, attacker scalar %s * x)", net.name, S, S[rpos], name, names[k]),
+					map[string]any{"vector": net.name, "signers": S, "rogue_index": S[rpos], "message": mi, "torsion": torsion, "weight": names[k]})
+			} else {
+				c.Outcome("rogue:" + name + ":reject")
+			}
 		}
 	}
 }
 
+// key vectors whose members cancel: roles "X", "-X", "Y", "-Y", "Z".
+func c14CancelNet(roles []string) *c14Net {
+	name := "cancel" + fmt.Sprint(roles)
+	net := &c14Net{n: len(roles), name: name}
+	base := &c14Vec{name: "base"}
+	for _, role := range roles {
+		neg := role[0] == '-'
+		if neg {
+			role = role[1:]
+		}
+		k := c14Key("c14/cancel/" + role)
+		if neg {
+			y, _ := edwards25519.NewScalar().SetCanonicalBytes(k[:])
+			var nk Key
+			copy(nk[:], edwards25519.NewScalar().Negate(y).Bytes())
+			k = &nk
+		}
+		p := k.Public()
+		net.priv = append(net.priv, k)
+		base.pub = append(base.pub, &p)
+	}
+	net.base = base
+	net.vecs = []*c14Vec{base}
+	return net
+}
+
+
 func TestMC_C14(t *testing.T) {
 	c := verifmc.Start(t, "C14", "exploration")
 	defer c.Finish()
-	c.SetRule("key vectors n in {1,2,3,4,6,300}. n<=6: one signature per (non-empty sorted subset S, message of 2); each verified against every (vector variant in {base, every swap of two keys, every single key replaced} x every sorted subset x 2 messages) and every malformed list (all unsorted permutations of subsets of size 2..3, every single duplicate, index n / n+7 / -1 added) x 2 messages [quick tier, n=6 only: the non-base vector variants are restricted to swaps and replacements that touch S, combined with the sorted subsets of the same size as S; the base vector still meets every list]; every malformed list is also signed with; every S proper subset of T forged with partial keys; rogue key (with and without small-order component) at first and last position of every S with |S|>=2. n=300: signatures for {0},{299},{0,299},{127,128},{255,256}, each verified against 15 sorted and 12 malformed lists x 9 swapped / 5 replaced vectors (including index pairs that differ by 256) x 2 messages. A case is distinct by (n, signed set, signed message, target vector, target list, target message) or by the forgery parameters")
+	c.SetRule("key vectors n in {1,2,3,4,6,300}. n<=6: one signature per (non-empty sorted subset S, message of 2); each verified against every (vector variant in {base, every swap of two keys, every single key replaced} x every sorted subset x 2 messages) and every malformed list (all unsorted permutations of subsets of size 2..3, every single duplicate, index n / n+7 / -1 added) x 2 messages [quick tier, n=6 only: the non-base vector variants are restricted to swaps and replacements that touch S, combined with the sorted subsets of the same size as S; the base vector still meets every list]; every malformed list is also signed with; every S proper subset of T forged with partial keys (signing equation with the code's and with the reference coefficients) and, for n<=4, with the single scalar w*sum(y_S) for every weight w in {1, every reference coefficient of T, every coefficient the code yields}; rogue key (with and without small-order component) at first and last position of every S with |S|>=2, attacker scalar w*x for every such w. 13 key vectors with cancelling members (X,-X / Y,-Y in every arrangement of 2..4 keys): every subset signed honestly and verified against every subset, every S subset of T forged both ways, rogue key at every position. Every acceptance anywhere is re-verified under the reference weighted key. n=300: signatures for {0},{299},{0,299},{127,128},{255,256}, each verified against 15 sorted and 12 malformed lists x 9 swapped / 5 replaced vectors (including index pairs that differ by 256) x 2 messages. A case is distinct by (n, signed set, signed message, target vector, target list, target message) or by the forgery parameters")
 	c.Assume("reference verifier: plain Schnorr on filippo.io/edwards25519 with challenge SHA-512(R||A||m) (crypto/signature.go); used to validate the attacker's own signature in the rogue-key scenario and the accepted honest signatures against the weighted key computed by the repository",
 		"equality of triples is taken on the selected keys (DESIGN.md): a target that differs only in an unselected key is expected to verify; a refusal there is recorded as stricter-than-statement, not as a violation",
-		"the partial-key forgery uses the repository's aggregateWeightedPublicKey for the coefficients and the aggregate key (the forger follows the public algorithm)")
+		"reference weighted key: a_i = SHA-512('mixin-aggregate-coefficient-v1' || transcript || u32be(i) || X_i) mod l with transcript = u32be(|S|) || (u32be(i) || X_i)*, A = sum a_i*X_i, recomputed in the harness from the definition in crypto/aggregation.go of the unchanged tree; used in the direction accepted => reference-valid, and as a source of forger weights. A deliberate change of the transcript format requires updating this reference",
+		"the partial-key forgery is run with the coefficients and aggregate key the repository yields and with the reference ones")
 
 	r := &c14Run{c: c}
 	r.msgs = []Hash{Blake3Hash([]byte("c14/message/0")), Blake3Hash([]byte("c14/message/1"))}
 
 	type job func()
 	var jobs []job
-	var nSigs, nForge, nRogue, nSelf atomic.Int64
+	var nSigs, nForge, nRogue, nSelf, nScalar, nCancel atomic.Int64
 
 	for _, n := range []int{1, 2, 3, 4, 6} {
 		var swaps [][2]int
@@ -537,6 +719,10 @@ func TestMC_C14(t *testing.T) {
 					for mi := range r.msgs {
 						nForge.Add(1)
 						r.forge(net, S, T, mi)
+						if len(S) < len(T) && (n <= 4 || c.Thorough()) {
+							nScalar.Add(1)
+							r.scalarForge(net, S, T, mi)
+						}
 					}
 				})
 				if len(T) >= 2 {
@@ -545,6 +731,61 @@ func TestMC_C14(t *testing.T) {
 							nRogue.Add(1)
 							r.rogue(net, T, rpos, mi)
 						}
+					}
+				}
+			})
+		}
+	}
+
+	// key vectors with cancelling members (X and -X, two such pairs)
+	for _, roles := range [][]string{
+		{"X", "-X"}, {"-X", "X"},
+		{"X", "Y", "-X"}, {"X", "-X", "Y"}, {"Y", "X", "-X"}, {"-X", "Y", "X"}, {"-X", "X", "Y"}, {"Y", "-X", "X"},
+		{"X", "Y", "Y", "-X"}, {"X", "Y", "Z", "-X"}, {"X", "-X", "Y", "-Y"}, {"X", "Y", "-X", "-Y"}, {"Y", "X", "-X", "Z"},
+	} {
+		net := c14CancelNet(roles)
+		var sorted []c14List
+		verifmc.Subsets(net.n, func(_ uint32, m []int) {
+			if len(m) > 0 {
+				sorted = append(sorted, c14List{c14Ints(m), "sorted"})
+			}
+		})
+		nCancel.Add(1)
+		for _, tl := range sorted {
+			T := tl.l
+			jobs = append(jobs, func() {
+				for mi := range r.msgs {
+					c.Eval(1)
+					sig, err := r.sign(net, net.base.pub, T, mi, fmt.Sprintf("c14/seed/%s/%v/%d", net.name, T, mi))
+					if err != nil {
+						c.Outcome("honest:sign-failed")
+						c.Violation("honest:sign-failed", fmt.Sprintf("%s: AggregateSign refuses sorted signers %v: %v", net.name, T, err), map[string]any{"vector": net.name, "signers": T, "message": mi})
+						continue
+					}
+					nSigs.Add(1)
+					r.matrix(&c14Sig{net: net, s: T, mi: mi, sig: sig}, net.vecs, sorted, nil, false)
+				}
+				verifmc.Subsets(len(T), func(_ uint32, m []int) {
+					if len(m) == 0 {
+						return
+					}
+					S := make([]int, len(m))
+					for i, k := range m {
+						S[i] = T[k]
+					}
+					for mi := range r.msgs {
+						nForge.Add(1)
+						r.forge(net, S, T, mi)
+						if len(S) < len(T) {
+							nScalar.Add(1)
+							r.scalarForge(net, S, T, mi)
+						}
+					}
+				})
+				if len(T) >= 2 {
+					for rpos := range T {
+						nRogue.Add(1)
+						r.rogue(net, T, rpos, 0)
 					}
 				}
 			})
@@ -604,6 +845,8 @@ func TestMC_C14(t *testing.T) {
 
 	c.Set("signatures", nSigs.Load())
 	c.Set("partial_key_forgeries", nForge.Load())
+	c.Set("single_scalar_forgery_groups", nScalar.Load())
+	c.Set("cancelling_key_vectors", nCancel.Load())
 	c.Set("rogue_key_attempts", nRogue.Load())
 	c.Set("malformed_lists_signed_with", nSelf.Load())
 	c.Set("reference_accepts", r.refOK.Load())
@@ -618,7 +861,7 @@ func TestMC_C14(t *testing.T) {
 	if c.Violations() == 0 && !c.Expired("final guards") {
 		c.Require(c.OutcomeCount("accept:own-triple") == nSigs.Load() && nSigs.Load() > 0, "own triple accepted %d times for %d signatures", c.OutcomeCount("accept:own-triple"), nSigs.Load())
 		for _, o := range []string{"accept:unselected-key-changed", "reject:same-keys-at-other-indexes", "reject:superset-of-signers", "reject:fewer-signers", "reject:other-signer-set", "reject:other-message", "reject:selected-key-changed",
-			"reject:unsorted", "reject:duplicate", "reject:out-of-range", "forge:reject", "forge:complete-keys-verify", "rogue:valid-point:reject", "rogue:small-order-component:reject",
+			"reject:unsorted", "reject:duplicate", "reject:out-of-range", "forge:reject", "forge:complete-keys-verify", "scalar-forge:reject", "rogue:valid-point:reject", "rogue:small-order-component:reject",
 			"sign-malformed:unsorted:refused", "sign-malformed:duplicate:refused", "sign-malformed:out-of-range:refused"} {
 			c.Require(c.OutcomeCount(o) > 0, "outcome %q never reached", o)
 		}
